@@ -4601,7 +4601,12 @@ gboolean conn_check_handle_inbound_stun (NiceAgent *agent, NiceStream *stream,
         valid = stun_agent_validate (&d->stun_agent, &req,
             (uint8_t *) buf, len, conncheck_stun_validater, &validater_data);
 
-        if (valid == STUN_VALIDATION_UNMATCHED_RESPONSE)
+        /* The discovery items of one socket do not all speak the same STUN
+         * dialect: the answer to an RFC 3489 binding request carries no magic
+         * cookie and is a BAD_REQUEST for the RFC 5389 agent of a TURN item.
+         * Keep looking for the item that sent the request. */
+        if (valid == STUN_VALIDATION_UNMATCHED_RESPONSE ||
+            valid == STUN_VALIDATION_BAD_REQUEST)
           continue;
 
         discovery_msg = TRUE;
